@@ -41,7 +41,7 @@ func (jenny Schema) generateSchema(context languages.Context, schema *ast.Schema
 			Compact: jenny.Config.Compact,
 		},
 		ReferenceFormatter: func(ref ast.RefType) string {
-			return fmt.Sprintf("#/components/schemas/%s", ref.ReferredType)
+			return fmt.Sprintf("#/components/schemas/%s", jsonschema.EscapeReferenceToken(ref.ReferredType))
 		},
 	}
 
